@@ -41,7 +41,7 @@ func (c04) Budget(tier string) int {
 	if tier == "thorough" {
 		return 150000
 	}
-	return 3000
+	return 2000
 }
 
 func (c04) Generate(seed uint64, i int, tier string) *Scenario {
@@ -107,6 +107,19 @@ var c04derive = map[string][]string{
 	"struct": {"x + struct()", "struct() + x", "x + struct(zz_new_field=[1])", "struct(zz_new_field=[1]) + x"},
 }
 
+// c04reads: operations that only READ x (they may fail — wrong type, unsortable,
+// unencodable — but whatever they do, x and everything else reachable from the
+// module must look exactly as before: "no operation whatsoever changes its
+// observable state").
+var c04reads = []string{
+	"json.encode(x)", "json.encode([x, x])", "json.encode({\"k\": x})", "json.indent(json.encode(x))", "str(x)", "repr(x)", "sorted(x)", "sorted(x, reverse=True)",
+	"sorted(x.items())", "sorted(x.keys())", "sorted(x.values())", "list(reversed(x))", "min(x)", "max(x)", "list(enumerate(x))", "list(zip(x, x))", "any(x)", "all(x)",
+	"len(x)", "bool(x)", "x == x", "x != x", "x < x", "[e for e in x]", "{repr(e): e for e in x}", "x.keys()", "x.values()", "x.items()", "dict(x)", "dict(**x)", "list(x)",
+	"tuple(x)", "set(x)", "x | x", "x & x", "x - x", "x ^ x", "x + x", "x * 2", "x[0]", "x[-1]", "x[::2]", "x.get(\"a\")", "x.index(1)", "x.count(1)", "1 in x", "\"a\" in x",
+	"hash(x)", "dir(x)", "type(x)", "\"%s %r\" % (x, x)", "\"{} {!r}\".format(x, x)", "\",\".join(x)", "x.union(x)", "x.issubset(x)", "x.difference(x)", "struct(f=x) == struct(f=x)",
+	"[x] < [x]", "sum_like(x)", "getattr(x, \"f\", None)", "x.f", "x.a", "str(x.items())", "json.encode(x.items())", "sorted(x, key=lambda e: repr(e))", "max(x, key=lambda e: repr(e))",
+}
+
 // helperSource is the separately compiled helper module holding every
 // discovered mutator as a one-parameter function.
 func helperSource() string {
@@ -117,6 +130,10 @@ func helperSource() string {
 			for _, m := range mutators[typ] {
 				sb.WriteString(m.Def)
 			}
+		}
+		sb.WriteString("def sum_like(x):\n    t = 0\n    for e in x:\n        t += len(repr(e))\n    return t\n")
+		for i, e := range c04reads {
+			fmt.Fprintf(&sb, "def read_%d(x):\n    return %s\n", i, e)
 		}
 		for _, typ := range []string{"list", "dict", "set", "tuple", "struct"} {
 			for i, e := range c04derive[typ] {
@@ -437,6 +454,52 @@ func (p c04) oracle(sc *Scenario, ex *c04exec, what string, attempts int, res *R
 			}
 		}
 	}
+	// 2a. read-only operations (Starlark built-ins and operators; Go API reads
+	// followed by the host scribbling over what it was handed, which the API
+	// documents as fresh copies): nothing reachable may look different afterwards
+	var readable []Node
+	for _, n := range nodes {
+		switch n.V.(type) {
+		case *starlark.List, *starlark.Dict, *starlark.Set, starlark.Tuple, *starlarkstruct.Struct:
+			readable = append(readable, n)
+		}
+	}
+	for k := 0; k < attempts/8 && len(readable) > 0; k++ {
+		n := readable[r.Intn(len(readable))]
+		if r.Chance(1, 5) {
+			switch v := n.V.(type) {
+			case *starlark.Dict:
+				items := v.Items()
+				for i := range items {
+					items[i] = starlark.Tuple{starlark.String("scribble"), starlark.None}
+				}
+				keys := v.Keys()
+				for i := range keys {
+					keys[i] = starlark.None
+				}
+				check("scribbling over the slices returned by Dict.Items()/Keys() of " + n.Path)
+			case *starlarkstruct.Struct:
+				names := v.AttrNames()
+				for i := range names {
+					names[i] = "scribble"
+				}
+				d := starlark.StringDict{}
+				v.ToStringDict(d)
+				for k := range d {
+					d[k] = starlark.None
+				}
+				check("scribbling over Struct.AttrNames()/ToStringDict of " + n.Path)
+			}
+			continue
+		}
+		ri := r.Intn(len(c04reads))
+		hc.Th.SetMaxExecutionSteps(hc.Th.ExecutionSteps() + 20000)
+		safeRun(func() { starlark.Call(hc.Th, hg[fmt.Sprintf("read_%d", ri)], starlark.Tuple{n.V}, nil) })
+		hc.Th.Uncancel()
+		hc.Th.SetMaxExecutionSteps(1 << 62)
+		res.Count("read_only_operations", 1)
+		check(fmt.Sprintf("the read-only operation %s on %s", c04reads[ri], n.Path))
+	}
 	// 2b. values derived from frozen ones: fresh, mutable, and not sharing
 	// storage with their frozen source
 	var sources []Node
@@ -446,7 +509,7 @@ func (p c04) oracle(sc *Scenario, ex *c04exec, what string, attempts int, res *R
 			sources = append(sources, n)
 		}
 	}
-	for k := 0; k < attempts/4 && len(sources) > 0; k++ {
+	for k := 0; k < attempts/8 && len(sources) > 0; k++ {
 		n := sources[r.Intn(len(sources))]
 		typ := n.V.Type()
 		exprs := c04derive[typ]
